@@ -362,6 +362,10 @@ def strat_hist_op(tier):
                                             'out': st.sampled_from([1, 2, 3, 4, 5, 6, 7, 8, 9, [6, 4], [5, 7], [3, 8], [7, 3], [4, 6]]),
                                             'Q': st.sampled_from([1, 2, 1.5, 3, [2, 1.5], [1.5, 2], 0.75]),
                                             'shape': st.sampled_from([[4, 4], [5, 5], [4, 5], [5, 4], [3, 6], [6, 6], [7, 7]])}),
+                     # another public function that runs on the same module-level executor (fttools.fourier_resample, which DM.render uses, transforms with
+                     # mdft.idft2 internally) with a geometry that the next checked call repeats exactly: same input shape, Q = zoom, same output samples
+                     st.fixed_dictionaries({'op': st.just('resample-then-idft2'), 'shape': st.sampled_from([[4, 4], [5, 5], [4, 5], [6, 4], [8, 8]]),
+                                            'zoom': st.sampled_from([2, 1.5, 0.5, [2, 1.5], 3]), 'seed': st.integers(0, 50), 'then': st.sampled_from(['idft2', 'idft2', 'dft2'])}),
                      # a burst of many distinct small geometries (bounded caches, eviction, counters); nothing but termination is asserted for the burst
                      # itself, later operations re-visit earlier geometries
                      st.fixed_dictionaries({'op': st.just('burst'), 'n': st.sampled_from([20, 40, 70, 300]), 'fn': st.sampled_from(['dft2', 'idft2', 'czt2', 'iczt2']),
@@ -449,6 +453,16 @@ class ExecutorHistory:
             base = self.calls[op['idx'] % len(self.calls)]
             op = {'op': 'call', 'fn': base['fn'], 'geo': dict(base['geo'], shift=list(op['shift'])), 'dtype': base['dtype'], 'seed': op['seed']}
             ctx.label('op:reshift:' + ('same-shift' if list(op['geo']['shift']) == list(base['geo']['shift']) else 'other-shift'))
+            ctx.nt(True)
+        if op['op'] == 'resample-then-idft2':
+            zoom = U.tup(op['zoom'])
+            zy, zx = U.as_pair(zoom)
+            m_, n_ = op['shape']
+            g = U.field(op['seed'], op['shape'], 'real').real.copy()
+            ctx.call(self.ft.fourier_resample, g, zoom)
+            op = {'op': 'call', 'fn': op['then'], 'geo': {'shape': list(op['shape']), 'out': [int(m_ * zy), int(n_ * zx)], 'Q': op['zoom'], 'shift': [0, 0]},
+                  'dtype': 'complex128', 'seed': op['seed']}
+            ctx.label('op:resample-then-' + op['fn'])
             ctx.nt(True)
         if op['op'] == 'vary':
             if not self.calls:
